@@ -185,6 +185,41 @@ pub fn hex(v: &[u8]) -> String {
 
 /// An io::Write target that accepts at most `k` octets per call (allowed by the io::Write
 /// contract: pipes, sockets, stream encoders): an encoder must produce the same octets on it.
+/// A target that reports ErrorKind::Interrupted on every other call and otherwise accepts at most `k`
+/// octets (io::Write::write_all retries on Interrupted; a bare write does not).
+pub struct InterruptingWriter { pub out: Vec<u8>, pub k: usize, pub calls: usize }
+impl std::io::Write for InterruptingWriter {
+    fn write(&mut self, b: &[u8]) -> std::io::Result<usize> {
+        self.calls += 1;
+        if self.calls % 2 == 1 { return Err(std::io::Error::new(std::io::ErrorKind::Interrupted, "interrupted")) }
+        let n = b.len().min(self.k.max(1)); self.out.extend_from_slice(&b[..n]); Ok(n)
+    }
+    fn flush(&mut self) -> std::io::Result<()> { Ok(()) }
+}
+/// A target with room for `cap` octets that answers Ok(0) once it is full (what `&mut [u8]` does).
+pub struct FullWriter { pub out: Vec<u8>, pub cap: usize }
+impl std::io::Write for FullWriter {
+    fn write(&mut self, b: &[u8]) -> std::io::Result<usize> { let n = b.len().min(self.cap - self.out.len()); self.out.extend_from_slice(&b[..n]); Ok(n) }
+    fn flush(&mut self) -> std::io::Result<()> { Ok(()) }
+}
+/// Runs an encoder on the awkward but legal io::Write targets: the octets must be the ones a Vec
+/// received, and a target that is too small must make the call fail. Returns what went wrong.
+pub fn awkward_targets(expected: &[u8], k: usize, enc: &dyn Fn(&mut dyn std::io::Write) -> std::io::Result<()>) -> Option<&'static str> {
+    let r = catch(|| {
+        let mut sw = ShortWriter { out: Vec::new(), k };
+        if enc(&mut sw).is_err() || sw.out != expected { return Some("octets-differ-on-a-short-writing-target") }
+        let mut iw = InterruptingWriter { out: Vec::new(), k: k + 1, calls: 0 };
+        if enc(&mut iw).is_err() || iw.out != expected { return Some("octets-differ-on-an-interrupting-target") }
+        if !expected.is_empty() {
+            for cap in [expected.len() - 1, expected.len() / 2, 1.min(expected.len() - 1)] {
+                let mut fw = FullWriter { out: Vec::new(), cap };
+                if enc(&mut fw).is_ok() { return Some("success-reported-on-a-target-that-is-too-small") }
+            }
+        }
+        None
+    });
+    match r { Some(x) => x, None => Some("panic-on-an-awkward-target") }
+}
 pub struct ShortWriter { pub out: Vec<u8>, pub k: usize }
 impl std::io::Write for ShortWriter {
     fn write(&mut self, b: &[u8]) -> std::io::Result<usize> { let n = b.len().min(self.k.max(1)); self.out.extend_from_slice(&b[..n]); Ok(n) }
